@@ -63,3 +63,32 @@ Theorem C14_truncate_canonical_last : forall q1 q2 size,
   forall c, c < nchunks size -> mem (truncate_ranges q1 size) c = mem (truncate_ranges q2 size) c.
 Proof. exact truncate_canonical_last_dom. Qed.
 Print Assumptions C14_truncate_canonical_last.
+
+(* ======== End-to-end composition (proofs in Proofs/BridgePlan.v, Proofs/E2EMisc.v) ======== *)
+From BaoV Require Import Model.Fsm Spec.EncSpec Spec.HashAssm Proofs.E2EGlue Proofs.E2EDecode Proofs.E2EMisc.
+From BaoV Require Proofs.BridgePlan.
+
+(* two queries with the same selection have the same honest encoding *)
+Theorem C14_encode_equiv : forall (HO : hops) (data : bytes HO) (bs : N) (q1 q2 : ranges),
+  (forall c, sel q1 (blen HO data) c = sel q2 (blen HO data) c) ->
+  honest HO data bs q1 = honest HO data bs q2.
+Proof. exact BridgePlan.bridge_function_of_selection. Qed.
+Print Assumptions C14_encode_equiv.
+
+(* ... and the encoding made for one of them is accepted in full by the decoders set up for the other
+   (only the decoder's query q2 has to be well formed and non-empty) *)
+Theorem C14_cross_decode : forall HO, hash_ok HO ->
+  forall (data : bytes HO) (bs : N) (q1 q2 : ranges),
+  (blen HO data <= 2 ^ 63)%N -> (bs <= 10)%N -> wf_ranges q2 = true -> q2 <> [] ->
+  (forall c, sel q1 (blen HO data) c = sel q2 (blen HO data) c) ->
+  forall rest : bytes HO,
+  let t := mkTree (blen HO data) bs in
+  let root := root_hash HO data in
+  let stream := flat HO (honest HO data bs q1) ++ rest in
+  honest HO data bs q1 = honest HO data bs q2 /\
+  (exists st, dec_run HO (dec_new HO root t stream q2) = (honest HO data bs q1, Finished, st) /\
+              d_enc HO st = rest) /\
+  (exists st, rd_run HO (rd_new HO root q2 t stream) = (honest HO data bs q1, Finished, st) /\
+              Fsm.r_enc HO st = rest).
+Proof. exact e2e_cross_decode. Qed.
+Print Assumptions C14_cross_decode.
